@@ -192,6 +192,10 @@ func (l *vLoop) yield(point string) {
 
 // vRunLoop builds the scenario and runs the real syncLoop until the iteration bound.
 func vRunLoop(native bool, maxIter, commitIter, maxCommits, kinds int, newRemote []int, storeFails int) *vLoop {
+	return vRunLoopOpt(native, false, maxIter, commitIter, maxCommits, kinds, newRemote, storeFails)
+}
+
+func vRunLoopOpt(native, receiveOnly bool, maxIter, commitIter, maxCommits, kinds int, newRemote []int, storeFails int) *vLoop {
 	l := &vLoop{native: native, maxIter: maxIter, commitIter: commitIter, maxCommits: maxCommits, newRemote: newRemote, kinds: kinds, storeFails: storeFails}
 	l.env = zz.NewEnv()
 	l.st = &vStore{}
@@ -222,6 +226,7 @@ func vRunLoop(native bool, maxIter, commitIter, maxCommits, kinds int, newRemote
 		c.StoragePollInterval = time.Hour
 		c.MemoryDecompressedSnapshots = 3
 		c.MemoryDownloadedSnapshots = 3
+		opt.ReceiveOnly = receiveOnly
 	})
 	l.r = receiver.New(l.st, l.s.c, "db", l.s.l, "inst", l.s.events, l.s.hooks)
 	l.r.VerifPrepare("other", "inst")
@@ -363,4 +368,26 @@ func VerifLoopStoreFailureNative() {
 	l.checkPublished("storefail")
 	zz.Assert(l.st.count("store", false) > l.st.count("store", true), "harness/store-failed-once")
 	zz.Reach("C09/storefail/done")
+}
+
+// VerifLoopShadowReceiveOnly: the same loop in receive-only mode (nothing is uploaded; local
+// application writes must still not be destroyed by the merges).
+func VerifLoopShadowReceiveOnly() {
+	l := vRunLoopOpt(false, true, 5, 3, 1, 2, []int{2, 3}, 0)
+	if l == nil {
+		return
+	}
+	l.checkNotDestroyed("receiveonly")
+	zz.Assert(l.st.count("store", false) == 0, "C12/receive-only/loop-never-stores")
+	zz.Reach("C03/receiveonly/done")
+}
+
+func VerifLoopNativeReceiveOnly() {
+	l := vRunLoopOpt(true, true, 4, 2, 1, 2, []int{2}, 0)
+	if l == nil {
+		return
+	}
+	l.checkNotDestroyed("receiveonly")
+	zz.Assert(l.st.count("store", false) == 0, "C12/receive-only/loop-never-stores")
+	zz.Reach("C03/receiveonly/done")
 }
